@@ -238,6 +238,33 @@ func (e *Engine) VerifyFunction(fn *ssa.Function, ct *Contract, timeoutMs, par i
 	start := time.Now()
 	x := e.NewExec(unit)
 	x.unitFn = fn
+	if ct != nil && ct.SafetyBefore != "" {
+		limit := token.NoPos
+		for _, b := range fn.Blocks {
+			for _, in := range b.Instrs {
+				ci, ok := in.(ssa.CallInstruction)
+				if !ok || in.Pos() == token.NoPos {
+					continue
+				}
+				c := ci.Common()
+				key := ""
+				if callee := c.StaticCallee(); callee != nil {
+					key = e.fnKey(callee)
+				} else if c.IsInvoke() {
+					key = e.invokeKey(c)
+				}
+				if key == ct.SafetyBefore && (limit == token.NoPos || in.Pos() < limit) {
+					limit = in.Pos()
+				}
+			}
+		}
+		if limit == token.NoPos {
+			res.Error = "safetybefore: the function does not call " + ct.SafetyBefore
+			return res
+		}
+		x.safetyLimit = limit
+		x.C.Trusted["safety is claimed only for the part of "+unit+" that precedes its first call of "+ct.SafetyBefore] = true
+	}
 	defer func() {
 		if r := recover(); r != nil {
 			if u, ok := r.(unsupported); ok {
